@@ -40,7 +40,10 @@ StoreAnswers ==
 
 StoreRequests ==
   { Rq0, [Rq0 EXCEPT !.range = 1], [Rq0 EXCEPT !.fl = <<"no-store">>], [Rq0 EXCEPT !.inm = 9],
-    [Rq0 EXCEPT !.m = "HEAD"], [Rq0 EXCEPT !.m = "POST"] }
+    [Rq0 EXCEPT !.m = "HEAD"], [Rq0 EXCEPT !.m = "POST"],
+    \* only-if-cached on requests the cache never answers from its store
+    [Rq0 EXCEPT !.fl = <<"only-if-cached">>, !.range = 1], [Rq0 EXCEPT !.fl = <<"only-if-cached">>, !.m = "POST"],
+    [Rq0 EXCEPT !.fl = <<"only-if-cached">>, !.m = "HEAD"] }
   \cup (IF Thorough THEN {[Rq0 EXCEPT !.ims = 1], [Rq0 EXCEPT !.m = "PUT"], [Rq0 EXCEPT !.fl = <<"no-store">>, !.range = 1]} ELSE {})
 
 A304c == [A0 EXCEPT !.k = "304", !.st = 304, !.ccp = 1, !.ma = 60]
